@@ -559,7 +559,7 @@ func createSwitchStatementChunks(stmt *ast.SwitchStatement, statementIndex int, 
 			// bodies, we want to completely omit even rendering the switch statement because
 			// it's a no-op. By early-returning here, we avoid adding the switch branchBehavior,
 			// which will result in the switch not being rendered in the output.
-			if len(branchCases) == 0 {
+			if len(branchCases) == 0 && !processedDefaultCase {
 				return remainingChunks, &jump{destChunkID: switchChunk.id}, returnID
 			}
 		} else if !stmt.Cases[i].IsDefault {
